@@ -68,6 +68,16 @@ def qm(name, **kw):
              under_contract=['cocls::queue<mo_item>::' + name + ' (move-only item: object identity, moved-from state, live-instance conservation)'])
     d.update(kw); return d
 UNITS += [qm('push'), qm('pop'), qm('dtor')]
+# ---- item type whose constructor MAY THROW (drivers/c09_thr_item.h): queue<thr_item>::push<int>(int&&) (emplace-style push); containers / promise<thr_item> of lib/model_awq_thr.c run the REAL constructor
+QTT = 'cocls::queue<thr_item, cocls::primitives::std_queue, cocls::primitives::std_queue, std::mutex>'
+QT_TYPES = dict(COMMON_T, QT=QTT, THR='thr_item', PRT='cocls::promise<thr_item>', FUTT='cocls::future<thr_item>', TQ_T=stdq('thr_item').replace('<thr_item >', '<thr_item>'), WQT_T=stdq('cocls::promise<thr_item>'))
+QT_GLOBALS = dict(GLOBALS, THR_FAIL='_ZN8thr_item4failE', THR_BUILT='_ZN8thr_item5builtE', THR_TI='_ZTI9thr_error')
+QT_BOUNDARY = [r'^(decltype\(auto\) )?std::queue<', r'^(cocls::suspend_point<bool> )?cocls::promise<thr_item>::', r'^cocls::suspend_point<bool>::~suspend_point\(\)$']
+QT_PUSH_RX = r'^cocls::suspend_point<bool> cocls::queue<thr_item, .*>::push<int>\(int&&\)$'
+UNITS += [dict(name='qt_push', driver='c09_queue_thr.cpp', roots=[QT_PUSH_RX, r'^thr_item::thr_item\(int\)$'], names={'qt_push': QT_PUSH_RX}, types=QT_TYPES, globals=QT_GLOBALS, boundary=QT_BOUNDARY,
+               lib=LIBS + ['model_awq_thr.c'], spec=['C09/q_spec.h', 'C09/qt_spec.h', 'C09/h_qt.c'], harness='h_qt_push', enforce='qt_push', defines=['CV_MODEL_THR 1'],
+               cbmc_flags=['--sat-solver', 'cadical'], timeout=300,
+               under_contract=['cocls::queue<thr_item>::push<int>(int&&) (item constructor may throw: hand-over and store branch, normal and exceptional exit)'])]
 META = dict(
     level='proof',
     level_text=('Every public member of cocls::queue<int> and cocls::queue<void> (constructor, push, pop incl. the future-constructor lambda, unblock_pop, size, empty, destructor) and of '
@@ -82,7 +92,12 @@ META = dict(
                 'and of instances destroyed while still carrying their value; its REAL move constructor / destructor are translated and run by the code under contract and by the container / promise models): in addition '
                 'to the clauses above, the object that reaches the consumer (hand-over) or the item sequence (stored) carries the pushed tag and is not moved-from, the pushed object is moved from exactly once, '
                 'live instances are conserved (push + 1, pop + 0 on both paths), no instance that still carries its value is destroyed by push or pop, and ~queue() with items inside destroys exactly those items '
-                '(live - |Q|: none leaked). The same per-operation balances are confirmed on the real std::queue / future code by replay/c09_mo_queue.cpp (g++, ASan/UBSan).'),
+                '(live - |Q|: none leaked). The same per-operation balances are confirmed on the real std::queue / future code by replay/c09_mo_queue.cpp (g++, ASan/UBSan). '
+                'THROWING ITEM CONSTRUCTOR (unit qt_push on cocls::queue<thr_item>::push<int>(int&&), the emplace-style push; thr_item = drivers/c09_thr_item.h, its REAL constructor from int throws thr_error when the nondet input '
+                'thr_item::fail is set and is run by the container / promise models at the place where the real std::deque / future would construct the item): for every abstract state and whether push RETURNS OR THROWS, the waiting pops '
+                'that remain are exactly the previous ones minus at most the OLDEST in unchanged order, push never (re-)inserts a waiter, nothing is stored while a pop waits, one critical section; a waiter taken out of the wait queue is completed '
+                'exactly once outside the lock - with the item, or with the constructor\'s exception (never dropped, never left pending; a push that leaves the waiters untouched and reports to the producer is admitted too); with nobody waiting the item '
+                'is appended with the pushed tag, or thr_error reaches the producer and both sequences are unchanged.'),
     level_note=('Sequential contracts per critical section: "every interleaving of producers and consumers" is reduced to "every sequential history of critical sections" by lock-based linearisability - '
                 'machine-checked part: every access to the item / waiter containers (and to the std_queue<void> counter) happens while the queue mutex is held, nothing guarded is read before lock() or after '
                 'unlock(), exactly one critical section per operation, parked promises are resolved and coroutines resumed only after unlock; argued part: the promise resolved outside the lock is a local '
@@ -92,16 +107,20 @@ META = dict(
                 'constructor, unblock_pop, size, empty do not touch items and are verified for int only; the history lemmas are over the int contracts) with the default '
                 'std_queue/std::mutex policies are instantiated; single_item_queue and no_lock are not covered. For mo_item the value inside the consumer\'s future is the model object gh_mo.deliv (move-constructed once from the '
                 'argument of promise::operator() by the real move constructor); what future<mo_item> later does with it (value(), ~future) is C01/C18 territory. Conservation sums are derived from the lockstep counting invariant by a separate '
-                'arithmetic lemma that needs an SMT back end (z3) - solver-specific.'),
+                'arithmetic lemma that needs an SMT back end (z3) - solver-specific. '
+                'For thr_item only push<int>(int&&) is instantiated (pop / unblock_pop / destructor do not construct items); promise<thr_item>::operator()(int&&) is a MODEL that mirrors the real promise::set_value (claim, construct the value, '
+                'catch a throwing constructor and resolve the claimed future with that exception, result true) - that the real set_value / future::set behave so is C01 territory and is not re-proved in this unit; the exception object is an opaque '
+                'identity (its tag is read once when caught).'),
     technique=('CBMC 6.11 code contracts (requires/ensures/assigns) enforced per function with goto-instrument --dfcc on the C translation (ir2c) of the clang IR of the real queue.h; std containers and '
                'promise operations as assumed-contract boundary models with a ghost-index element view; history lemmas = loop contracts over replaced contracts; z3 for pure linear arithmetic'),
     trusted_base=['assumed contract: std::queue<int>, std::queue<promise<T>> are unbounded FIFOs; front()/pop() need a non-empty queue; emplace moves the promise in; pop()/~queue() destroy elements (lib/model_awq_containers.c)',
                   'abstract boundary: cocls::promise<T> move/construct/operator()/set_exception/destructor and suspend_point<bool>::~suspend_point as ghost-logging stubs (lib/model_awq_promise.c); future.h internals not translated',
                   'assumed contract (move-only units): std::queue<mo_item> / std::queue<promise<mo_item>> FIFOs whose emplace/push move-CONSTRUCT the element with the real mo_item move constructor, whose pop() runs the real destructor on the front element and whose ~queue() destroys every remaining element; promise<mo_item>::operator()(mo_item&&) move-constructs the future\'s value exactly once; untracked elements materialise as objects that carry some value - justified by the obligation that no moved-from object is ever put in (lib/model_awq_mo.c)',
+                  'assumed contract (throwing-constructor unit): std::queue<thr_item>::emplace<int> constructs the element in place with the real thr_item(int) and leaves the container unchanged when it throws (strong guarantee of deque::emplace_back); std::queue<promise<thr_item>> FIFO as above, insertions counted; promise<thr_item>::operator()(int&&) = claim + real constructor + on exception resolve the future with it (mirror of promise::set_value after repo fix d66c8bf), promise<thr_item>::operator()(thr_item&&) copies the value (lib/model_awq_thr.c)',
                   'primitive: std::mutex via pthread_mutex_lock/unlock with lock-discipline obligations (lib/model_mutex.c)',
                   'rely/guarantee reduction of interleavings to sequential histories of critical sections (argued, DESIGN 3.5)'],
     assumptions=['ghost positions / event counters are mathematical integers (never wrap: fewer than 2^62 operations); queue<void> count < 2^62',
-                 'std::queue operations do not throw (bad_alloc assumed away); pthread_mutex_lock never fails',
+                 'std::queue operations do not throw (bad_alloc assumed away) except by the item constructor in the thr_item unit; pthread_mutex_lock never fails',
                  'the std::exception_ptr passed to unblock_pop is an opaque object pointer (identity only); its reference traffic is counted: +1 exactly when a waiting pop received it',
                  'history lemmas start at the constructor and then continue from an arbitrary state satisfying the invariant; value/identity claims about a tagged element are made for the valuation of the ghost positions that coincides with the positions the element takes (universally quantified ghost index)'],
     explanation='see level_text')
